@@ -3,6 +3,7 @@ package appsim
 import (
 	"errors"
 	"fmt"
+	"time"
 
 	clienttx "github.com/cosmos/cosmos-sdk/client/tx"
 	cryptotypes "github.com/cosmos/cosmos-sdk/crypto/types"
@@ -124,8 +125,12 @@ func (s *Sim) BuildPayload(proposerIdx int) (*goatmod.ExecutionPayload, error) {
 		return nil, err
 	}
 	root := common.BytesToHash(beacon)
+	ts := uint64(s.NextTime().Unix())
+	if s.Cfg.WallClockPayloads {
+		ts = uint64(time.Now().UTC().Unix()) // as the real handler does: the head then carries the current second
+	}
 	env := s.Engine.DirectBuild(common.BytesToHash(parent.BlockHash), parent.BlockNumber, &engine.PayloadAttributes{
-		Timestamp:             uint64(s.NextTime().Unix()),
+		Timestamp:             ts,
 		Random:                common.BytesToHash(seedHash(s.Cfg.Seed+uint64(s.Height), "appsim-prevrandao")),
 		SuggestedFeeRecipient: common.BytesToAddress(s.Validators[proposerIdx].ConsAddr),
 		Withdrawals:           ethtypes.Withdrawals{},
